@@ -40,7 +40,7 @@ ObsIn(R)  == [off |-> R.off, pert |-> R.pert]
 Exact(R)  == R.w_err >= -64 /\ R.w_err <= 64 /\ R.kread_err >= -64 /\ R.kread_err <= 64
 
 \* ------------------------------------------------------------ monitor clauses
-MKind(R)       == KindP(ObsAct(R)) /\ R.nwrite = 1
+MKind(R)       == KindP(ObsAct(R)) /\ R.nwrite >= 1
 MStepRule(R)   == R.k \in {"step", "freq"} => StepRuleP(ObsAct(R), ObsIn(R))
 MStepAmount(R) == R.k = "step" => (R.x_eq /\ (R.x_q => StepAmountP(ObsAct(R), ObsIn(R))))
 MSlewValue(R, pa) == R.k = "freq" => (R.raw_ok /\ (Exact(R) => SlewValueP(ObsAct(R), ObsIn(R), pa)))
@@ -57,7 +57,7 @@ SKernel(R) == R.kread = act'.kread /\ R.kafter = kfreq'
 \* frequency" / "within the clamp" differ between the real values and their model images)
 SWarn(R)   == R.warn_amb \/ R.warn = act'.warn
 SState(R)  == R.int_ok /\ R.ci = integ' /\ R.ca = addend' /\ R.cf = cfreq'
-SCalls(R)  == R.nread = 1 /\ R.read_1st
+SCalls(R)  == R.nread = 1 /\ R.read_1st /\ R.nwrite = 1
 SDecomp(R) == (~R.clamped /\ nsteps' = 0) => R.decomp
 SFailing(R) ==
   (IF SAct(R) THEN << >> ELSE <<"Act">>) \o
